@@ -1075,6 +1075,104 @@ func completeRun(sysName string, other string, seed int64) ([]cEvent, error) {
 	return cr.sorted(), nil
 }
 
+// ---- scale scenarios: single-client histories that cross a count or size threshold, validated by TraceConc ----
+
+// bigMultipartRun: one upload with more than a thousand parts (the listing page limit), completed with all of
+// them, and the object read back.
+func bigMultipartRun(sysName string, nparts int, seed int64) ([]cEvent, error) {
+	cr, reset, err := newConcRun(sysName, false, seed, false)
+	if err != nil {
+		return nil, err
+	}
+	defer cr.sys.Close()
+	reset.Scenario = fmt.Sprintf("big-multipart:%d", nparts)
+	cr.record(reset)
+	r := rand.New(rand.NewSource(seed))
+	cr.sizes = []int{9, 17}
+	kb := keyBytes("k1")
+	init := Op{"op": "Initiate", "b": concBucket, "k": kb, "meta": []interface{}{}, "uid": ""}
+	cr.doOp("1", init, nil, nil, nil)
+	uid := init.S("uid")
+	var list []interface{}
+	for n := 1; n <= nparts; n++ {
+		name := fmt.Sprintf("p%d", n)
+		body := cr.atom(name, r)
+		cr.doOp("1", Op{"op": "UploadPart", "b": concBucket, "k": kb, "uid": uid, "n": float64(n), "body": []interface{}{name}}, body, nil, nil)
+		list = append(list, map[string]interface{}{"n": float64(n), "body": []interface{}{name}})
+	}
+	cr.doOp("1", Op{"op": "Complete", "b": concBucket, "k": kb, "uid": uid, "list": list, "vid": ""}, nil, nil, nil)
+	cr.doOp("1", Op{"op": "GetObject", "b": concBucket, "k": kb}, nil, nil, nil)
+	cr.record(cr.finalSnapshot([]string{"k1"}))
+	return cr.sorted(), nil
+}
+
+// versionCounterRun: the backend has issued almost 100000 version ids (writes to another bucket through the
+// Backend API, not recorded: the model never hears of that bucket) when a versioned key receives its versions,
+// which are then read by id and deleted newest first with a read after every delete.
+func versionCounterRun(sysName string, warm int, seed int64) ([]cEvent, error) {
+	cr, reset, err := newConcRun(sysName, true, seed, false)
+	if err != nil {
+		return nil, err
+	}
+	defer cr.sys.Close()
+	reset.Scenario = fmt.Sprintf("version-counter:%d", warm)
+	cr.record(reset)
+	be := cr.sys.Backend
+	if err := be.CreateBucket("warm"); err != nil {
+		return nil, err
+	}
+	for i := 0; i < warm; i++ {
+		if _, err := be.PutObject("warm", "w", nil, bytes.NewReader([]byte{byte(i)}), 1); err != nil {
+			return nil, err
+		}
+	}
+	r := rand.New(rand.NewSource(seed))
+	cr.sizes = []int{20}
+	kb := keyBytes("k1")
+	var vids []string
+	for i := 0; i < 20; i++ {
+		name := fmt.Sprintf("v%d", i)
+		body := cr.atom(name, r)
+		op := Op{"op": "PutObject", "b": concBucket, "k": kb, "body": []interface{}{name}, "meta": []interface{}{}, "vid": ""}
+		cr.doOp("1", op, body, nil, nil)
+		vids = append(vids, op.S("vid"))
+	}
+	for _, v := range vids {
+		cr.doOp("1", Op{"op": "GetObjectVersion", "b": concBucket, "k": kb, "vid": v}, nil, nil, nil)
+	}
+	for i := len(vids) - 1; i >= 0; i-- {
+		cr.doOp("1", Op{"op": "DeleteObjectVersion", "b": concBucket, "k": kb, "vid": vids[i]}, nil, nil, nil)
+		cr.doOp("1", Op{"op": "GetObject", "b": concBucket, "k": kb}, nil, nil, nil)
+	}
+	cr.record(cr.finalSnapshot([]string{"k1"}))
+	return cr.sorted(), nil
+}
+
+// hugeBodyRun: bodies around and beyond the sizes at which the upload path changes its buffering (1 MiB, the
+// 64 MiB preallocation limit): written, read, copied, overwritten.
+func hugeBodyRun(sysName string, sizes []int, seed int64) ([]cEvent, error) {
+	cr, reset, err := newConcRun(sysName, false, seed, false)
+	if err != nil {
+		return nil, err
+	}
+	defer cr.sys.Close()
+	reset.Scenario = fmt.Sprintf("huge-bodies:%v", sizes)
+	cr.record(reset)
+	for i, size := range sizes {
+		k := []string{"k1", "k2"}[i%2]
+		kb := keyBytes(k)
+		name := fmt.Sprintf("h%d", i)
+		body := cr.bigAtom(name, size)
+		cr.doOp("1", Op{"op": "PutObject", "b": concBucket, "k": kb, "body": []interface{}{name}, "meta": []interface{}{}, "vid": ""}, body, nil, nil)
+		cr.doOp("1", Op{"op": "GetObject", "b": concBucket, "k": kb}, nil, nil, nil)
+		cr.doOp("1", Op{"op": "HeadObject", "b": concBucket, "k": kb}, nil, nil, nil)
+		cr.doOp("1", Op{"op": "CopyObject", "b": concBucket, "k": keyBytes("d/k3"), "sb": concBucket, "sk": kb, "meta": []interface{}{}}, nil, nil, nil)
+		cr.doOp("1", Op{"op": "GetObject", "b": concBucket, "k": keyBytes("d/k3")}, nil, nil, nil)
+	}
+	cr.record(cr.finalSnapshot([]string{"k1", "k2", "d/k3"}))
+	return cr.sorted(), nil
+}
+
 // withDeadline runs one recording with a watchdog: a run whose requests never return (a deadlock in the code
 // under test) is reported as a problem instead of hanging the whole harness; its goroutines are abandoned.
 var runDeadline = 60 * time.Second
@@ -1116,6 +1214,7 @@ func cmdConc(args []string) {
 	trace := fs.String("trace", "", "NDJSON output")
 	gated := fs.Bool("gated", true, "include the slow uploader / slow reader scenarios")
 	fs.BoolVar(&singleKeyMix, "single-key-mix", false, "free runs use single-key operations only")
+	big := fs.String("big", "", "scale scenarios instead of concurrent runs: multipart,counter,huge,huge64 (comma separated)")
 	partRace := fs.Int("partrace", 0, "rounds of the re-upload-during-complete sweep")
 	seqOps := fs.Int("seq", 0, "instead of concurrent runs: sequential random histories of this many operations")
 	out := fs.String("out", "", "summary")
@@ -1140,6 +1239,43 @@ func cmdConc(args []string) {
 		}
 	}
 	for _, sysName := range strings.Split(*systems, ",") {
+		if *big != "" {
+			for _, sc := range strings.Split(*big, ",") {
+				var run func() ([]cEvent, error)
+				switch sc {
+				case "multipart":
+					run = func() ([]cEvent, error) { return bigMultipartRun(sysName, 1003, *seed) }
+				case "counter":
+					run = func() ([]cEvent, error) { return versionCounterRun(sysName, 99990, *seed) }
+				case "huge":
+					run = func() ([]cEvent, error) {
+						return hugeBodyRun(sysName, []int{1<<20 - 1, 1 << 20, 1<<20 + 1, 5 << 20, 8<<20 + 3}, *seed)
+					}
+				case "huge64":
+					run = func() ([]cEvent, error) { return hugeBodyRun(sysName, []int{33 << 20, 64<<20 + 4096}, *seed) }
+				default:
+					continue
+				}
+				if sc == "counter" {
+					if s0, err := NewSystem(sysName, SysOpts{}); err == nil {
+						v := s0.Versioned()
+						s0.Close()
+						if !v {
+							continue
+						}
+					}
+				}
+				evs, err := withDeadline(sc+" on "+sysName, run)
+				if err != nil {
+					if err != errSkippedAfterHangs {
+						problems = append(problems, sysName+": "+err.Error())
+					}
+					continue
+				}
+				write(evs, sysName)
+			}
+			continue
+		}
 		if *seqOps > 0 {
 			for i := 0; i < *runs; i++ {
 				evs, err := withDeadline("seqRun on "+sysName, func() ([]cEvent, error) { return seqRun(sysName, *seqOps, *seed*977+int64(i)) })
